@@ -427,6 +427,9 @@ def handle (req : Json) : Except String Json := do
   | "cfg" => handleCfg req
   | "gitfiles" => handleGitFiles req
   | "web" => handleWeb req
+  | "tssplit" => do
+      let t ← req.getObjValAs? String "text"
+      pure (Json.mkObj [("ok", .arr ((Nbdime.Ts.splitLines t.toList).map (fun l => Json.str (String.ofList l))).toArray)])
   | "builtinmerge" => do
       let l ← req.getObjValAs? String "local"
       let r ← req.getObjValAs? String "remote"
